@@ -40,7 +40,7 @@ def tie(ctx, progs, spec, variants, tag='mt', step=1):
     for v in vs:
         for par in MODEL_VARIANTS[v]:
             # runs that exhaust the budget are not compared here: a smaller budget only skips them sooner
-            cap = 40000 if ctx.tier == 'quick' else 10 ** 9
+            cap = 40000 if ctx.tier == 'quick' else 150000
             impl, il, raw = S.run_impl(ctx, [(progs[k], v, par, min(cap, S.budget_for(spec[k][1]))) for k in sel], '%s-i%sx%d' % (tag, v, par))
             cmpk, mlines = [], []
             for j, k in enumerate(sel):
